@@ -7,13 +7,12 @@ from .common import TRUSTED, Ctx
 def check(rep):
     ctx = Ctx(rep)
     ER.rule_position_slice(ctx)
-    ER.rule_hash_descriptor(ctx, rid="C10.POSITION-FROM-KEY")
-    ER.rule_choice_search(ctx, rid="C10.MONOTONE-LOCATE")
-    ER.rule_no_shared_state(ctx, rid="C10.NO-SHARED-STATE", modules={"binning/binning.py"})
-    PR.rule_compiles(ctx, rid="C10.SHAPE-COMPILES")
-    PR.rule_key(ctx, rid="C10.ONE-KEY")
-    PR.rule_signature(ctx, rid="C10.BRANCH-INDEPENDENT")
-    PR.rule_translation(ctx, rid="C10.DECLARED-ORDER")
+    ER.rule_hash_pure(ctx, rid="C10.POSITION-FROM-KEY")
+    ER.rule_choice_search(ctx, rid="C10.MONOTONE-LOCATE", parts=("locate", "prefix"))
+    ER.rule_retained_arguments(ctx, rid="C10.NO-RETAINED-ARGUMENT", modules={"binning/binning.py"})
+    PR.rule_compiles(ctx, rid="C10.SHAPE-COMPILES", strict=False)
+    PR.rule_key(ctx, rid="C10.ONE-KEY", mode="position")
+    PR.rule_translation(ctx, rid="C10.DECLARED-ORDER", focus="groups")
     rep.assume("the consequence 'no unit moves to a later group when no leading cumulative share decreases' follows from one "
                "position per unit + right bisection on prefix sums by arithmetic; that last step is an argument in DESIGN.md")
     return ("Backward slice of the hash argument at every deterministic_proba call site is the id parameter alone; no second "
